@@ -51,8 +51,9 @@ def nullLoop : List TxIn → Res Unit
 def checkTx (p : ChainParams) (t : Tx) : Res Unit :=
   if t.vin.length = 0 then reject
   else if t.vout.length = 0 then reject
+  else if !ctorValid t then .error .valueerr       -- base_tx = CTransaction(vin, vout, nLockTime, nVersion)
   else
-    -- base_tx = CTransaction(vin, vout, nLockTime, nVersion); len(base_tx.serialize())
+    -- len(base_tx.serialize())
     match serTx t.strip with
     | .error e => .error e
     | .ok base =>
@@ -77,6 +78,7 @@ def checkPoW (p : ChainParams) (hash : Bytes) (nBits : Nat) : Res Unit :=
   match Model.checkPoW p.powLimit hash nBits with
   | .ok => .ok ()
   | .errPow => reject
+  | .pyStructError => .error structError   -- hash shorter than 32 bytes: dead for a header digest
 
 /-- `CheckBlockHeader(block_header, fCheckPoW, cur_time)` with `cur_time` given -/
 def checkBlockHeader (p : ChainParams) (h : Header) (fPoW : Bool) (curTime : Int) : Res Unit :=
